@@ -1,3 +1,4 @@
+import HttpcoreModel.Props.Life
 import HttpcoreModel.Props.Wrap
 import HttpcoreModel.Sys.Inv
 import HttpcoreModel.Generated
